@@ -342,17 +342,28 @@ pub fn run_case_via_logger(id: &str, toks: &[&str]) -> String {
     r
 }
 fn logger_of(c: &Cfg, dir: &Path, link: &Path) -> Result<(Box<dyn log::Log>, flexi_logger::LoggerHandle), flexi_logger::FlexiLoggerError> {
-    let mut l = flexi_logger::Logger::with(flexi_logger::LogSpecification::trace());
+    // equivalent builder paths, chosen per configuration (see `variant`)
+    let v = variant(c) >> 9;
+    let mut l = match v & 3 {
+        0 => flexi_logger::Logger::try_with_str("trace")?,
+        1 => flexi_logger::Logger::with(flexi_logger::LogSpecification::from(log::LevelFilter::Trace)),
+        _ => flexi_logger::Logger::with(flexi_logger::LogSpecification::trace()),
+    };
+    let rotate = |l: flexi_logger::Logger, r: Option<(Criterion, Naming, Cleanup)>| match (r, (v >> 2) & 1) {
+        (Some((crit, naming, cleanup)), 0) => l.rotate(crit, naming, cleanup),
+        (None, 0) => l,
+        (r, _) => l.o_rotate(r),
+    };
     // the order of rotate() and log_to_file() must not matter
     if c.rot_first {
-        if let Some((crit, naming, cleanup)) = c.rot {
-            l = l.rotate(crit, naming, cleanup);
-        }
+        l = rotate(l, c.rot);
     }
+    let mut l = l.log_to_file(file_spec(c, dir)).format_for_files(raw_format);
+    l = match (c.append, (v >> 3) & 1) {
+        (true, 0) => l.append(),
+        (a, _) => l.o_append(a),
+    };
     let mut l = l
-        .log_to_file(file_spec(c, dir))
-        .format_for_files(raw_format)
-        .o_append(c.append)
         .cleanup_in_background_thread(c.bg)
         .error_channel(flexi_logger::ErrorChannel::File(errfile().clone()))
         .write_mode(match (c.cap, c.asyn) {
@@ -365,18 +376,21 @@ fn logger_of(c: &Cfg, dir: &Path, link: &Path) -> Result<(Box<dyn log::Log>, fle
             (Some(n), None) => WriteMode::BufferDontFlushWith(n),
         });
     if !c.rot_first {
-        if let Some((crit, naming, cleanup)) = c.rot {
-            l = l.rotate(crit, naming, cleanup);
-        }
+        l = rotate(l, c.rot);
     }
     if c.utc {
         l = l.use_utc();
     }
-    if c.link {
-        l = l.create_symlink(link);
-    }
+    l = match (c.link, (v >> 4) & 1) {
+        (true, 0) => l.create_symlink(link),
+        (false, 0) => l,
+        (k, _) => l.o_create_symlink(if k { Some(link) } else { None }),
+    };
     if c.crlf {
         l = l.use_windows_line_ending();
+    }
+    if (v >> 5) & 1 == 1 {
+        l = l.o_print_message(false);
     }
     l.build()
 }
